@@ -47,7 +47,7 @@ THEOREMS = [
         "wtcard_type_dispatch "
         "format_float_accuracy format_bound_pieces mixed_branch_picks mixed_branch_reads_as_sci "
         "fixed_branch_best_precision last_branches_best_precision sci_best_precision sci_slack_attained "
-        "unnormalised_mantissa_is_closer mixed_branch_picks_neg kept_comments_complete rdcards_foreign_block"
+        "unnormalised_mantissa_is_closer mixed_branch_picks_neg kept_comments_complete rdcards_foreign_block tables_best_ok format_float_best_precision"
     ).split()
 ]
 TRUSTED = [
@@ -111,7 +111,9 @@ PARTIAL = (
     "integers 1/2; format_bound_pieces); mixed_branch_picks (positive chain: the fixed alternative is emitted iff "
     "N > 0, it fits and both fields read as the same double), mixed_branch_picks_neg (negative chain, exponents "
     "not ending in 0) and mixed_branch_reads_as_sci (whatever is emitted "
-    "reads back as the same number as the scientific field); best precision per branch: "
+    "reads back as the same number as the scientific field); best precision: format_float_best_precision (over "
+    "the dispatch: in every fixed-notation branch and in the final integer branches the field returned is a "
+    "nearest W-character field; tables_best_ok by decide on the regenerated tables), per branch "
     "fixed_branch_best_precision and last_branches_best_precision (no string of the grammar of at most W "
     "characters, either sign, normalised or not, is closer: slack 0), sci_best_precision (slack 10^(E-q) against "
     "fields of the other sign, fixed-notation fields and scientific fields whose exponent part is at least as "
@@ -126,12 +128,16 @@ PARTIAL = (
     "for printed exponents whose last digit is not 0: the code's field.strip(' 0-') also eats the last zero of "
     "an exponent like -10 and then compares with another number, so for 1e-10 <= |x| < 1e-9 in format_float16 "
     "which alternative is emitted is tied by the exact correspondence only (text, width, read-back and the bound "
-    "of each alternative are proved there too); (2) best precision is per branch and is not re-assembled over "
-    "the dispatch; for the fixed alternative of a mixed branch it is only known that it reads back as the "
-    "scientific field does (mixed_branch_reads_as_sci, positive chain); "
+    "of each alternative are proved there too); (2) best precision is assembled over "
+    "the dispatch for the fixed-notation and final integer branches only (format_float_best_precision: slack 0 "
+    "against every string); in the scientific branches it is per branch (sci_best_precision, with the slack and "
+    "the competitor class), and for the fixed alternative of a mixed branch it is only known that it reads back "
+    "as the scientific field does (mixed_branch_reads_as_sci, positive chain); "
     "(3) a comma-form writer does not exist in pyyeti: card_roundtrip_comma is about the specification text "
-    "commaText; (4) in rdcards_assembled the foreign blocks between the cards are assumed to contribute no card "
-    "of the name (decided for concrete lines, tied by correspondence in general); for keep_comments=True "
+    "commaText; (4) in rdcards_assembled the foreign blocks between the cards must contribute no card of the "
+    "name: rdcards_foreign_block proves that for every block none of whose lines starts with the name, but that "
+    "the lines of a written card of ANOTHER name are such a block is not proved in general (tied by "
+    "correspondence); for keep_comments=True "
     "kept_comments_complete proves that every comment line is kept once and in order, the exact place of a "
     "comment among the cards (in front of the next matching card) is modelled and tied only; regex matching "
     "carries no theorem beyond rdcards_multi's 'any matcher'; (5) numpy.float32 arguments equal to the float32 rounding of a branch "
